@@ -92,10 +92,28 @@ def expr_cases(draw):
                                  "a &amp; b\n"]))
     if lead:
         nodes.insert(0, ["raw", lead])
+    if draw(st.integers(0, 5)) == 0:
+        # the fault stands in an attribute value that is wrapped over
+        # several lines (instead of in one of the generated sites)
+        nodes = copy.deepcopy(case["nodes"])
+        if lead:
+            nodes.insert(0, ["raw", lead])
+        wrap = draw(st.sampled_from(["\n     ", "\n\t", " \n  \n   ", "  "]))
+        nodes.insert(draw(st.integers(0, len(nodes))), ["raw",
+                     '<i class="a%sb%s${%s}" id="z">w</i>' % (wrap, wrap,
+                                                              text)])
+        alt = False
+        slots = [None]
     return {"nodes": nodes, "text": text, "alt": alt, "planted": bool(slots),
             # line-ending style the template is written with (positions are
             # the same: a CR LF pair is one line break)
-            "eol": draw(st.sampled_from(["\n", "\n", "\r\n", "\r"]))}
+            "eol": draw(st.sampled_from(["\n", "\n", "\r\n", "\r"])),
+            # options that must not move error positions
+            "options": draw(st.sampled_from([{}, {}, {
+                "trim_attribute_space": True}, {
+                "enable_data_attributes": True}, {
+                "implicit_i18n_translate": True,
+                "implicit_i18n_attributes": ["class", "title"]}]))}
 
 
 class ExprErrors(Part):
@@ -148,7 +166,12 @@ class ExprErrors(Part):
         out, src, true_off = self._site(case)
         detail = {"source": src, "planted": case["text"],
                   "true_offset": true_off}
-        o = run(PageTemplate, src.replace("\n", case.get("eol", "\n")))
+        opts = dict(case.get("options") or {})
+        if "implicit_i18n_attributes" in opts:
+            opts["implicit_i18n_attributes"] = set(
+                opts["implicit_i18n_attributes"])
+        o = run(PageTemplate, src.replace("\n", case.get("eol", "\n")),
+                **opts)
         if o.ok:
             return Mismatch("expr:accepted", detail)
         if not isinstance(o.exc, TemplateError):
@@ -248,6 +271,11 @@ SNIPPETS = {
     "reserved_repeat": '<i tal:repeat="rcontext (1, 2)">a</i>',
     "reserved_tuple": '<i tal:define="(a, econtext) (1, 2)">a</i>',
     "reserved_tuple_repeat": '<i tal:repeat="(a, __b) ((1, 2),)">a</i>',
+    "reserved_global": '<i tal:define="global __x 1">a</i>',
+    "reserved_global_2nd": '<i tal:define="a 1; global econtext 2">a</i>',
+    "reserved_global_tuple": '<i tal:define="global (a, __b) (1, 2)">a</i>',
+    "reserved_global_repeat": '<i tal:repeat="global rcontext (1, 2)">a</i>',
+    "reserved_local_kw": '<i tal:define="local rcontext 1">a</i>',
     "attributes_multiline": '<i tal:attributes="a 1;\n   b 2;\n   a 3">a</i>',
     "script": '<i tal:script="x">a</i>',
     "attributes_on_ns": '<tal:block attributes="a 1">a</tal:block>',
